@@ -274,174 +274,18 @@ theorem walkAny_infix (t : Ty) : ∀ (visit : Ty → Val → Bool) (skip : Bool)
     | zero => simp only [walkUnion] at h; exact iht visit false v h
     | succ m => simp only [walkUnion] at h; exact ihr visit m v h
 
-/-! ## where records may sit -/
-
-mutual
-/-- no record type anywhere inside. -/
-def noRec : Ty → Bool
-  | .prim _ => true
-  | .enum _ => true
-  | .record _ => false
-  | .array t => noRec t
-  | .set t => noRec t
-  | .error t => noRec t
-  | .named _ t => noRec t
-  | .map k v => noRec k && noRec v
-  | .union ts => noRecs ts
-def noRecFields : Fields → Bool
-  | .nil => true
-  | .cons _ t r => noRec t && noRecFields r
-def noRecs : Tys → Bool
-  | .nil => true
-  | .cons t r => noRec t && noRecs r
-end
-
-mutual
-/-- records are nested only directly in records (possibly through type names): no record below
-    an array, set, map, union or error. -/
-def recOnly : Ty → Bool
-  | .prim _ => true
-  | .enum _ => true
-  | .named _ t => recOnly t
-  | .record fs => recOnlyF fs
-  | .array t => noRec t
-  | .set t => noRec t
-  | .error t => noRec t
-  | .map k v => noRec k && noRec v
-  | .union ts => noRecs ts
-def recOnlyF : Fields → Bool
-  | .nil => true
-  | .cons _ t r => recOnly t && recOnlyF r
-def recOnlyT : Tys → Bool
-  | .nil => true
-  | .cons t r => recOnly t && recOnlyT r
-end
+/-! ## the field-name part of a keyword search -/
 
 /-- the visit of `searchString.Eval`'s walk. -/
 def searchVisit (term : Bytes) (ty : Ty) (b : Val) : Bool := searchType term ty || strLeaf term ty b
 
-theorem recordNames_noRec : ∀ (t : Ty), noRec t = true → recordNames t = none
-  | .prim _, _ => rfl
-  | .enum _, _ => rfl
-  | .record _, h => by simp [noRec] at h
-  | .array _, _ => rfl
-  | .set _, _ => rfl
-  | .error _, _ => rfl
-  | .map _ _, _ => rfl
-  | .union _, _ => rfl
-  | .named _ t, h => by simp only [noRec] at h; simp only [recordNames]; exact recordNames_noRec t h
-
-theorem searchType_noRec (term : Bytes) (t : Ty) (h : noRec t = true) : searchType term t = false := by
-  simp [searchType, recordNames_noRec t h]
-
-theorem vals_any_congr : ∀ (items : Vals) (f g : Val → Bool), (∀ v, f v = g v) → items.any f = items.any g
-  | .nil, _, _, _ => rfl
-  | .cons v r, f, g, h => by simp only [Vals.any, h v, vals_any_congr r f g h]
-
-theorem vals_anyKV_congr : ∀ (items : Vals) (f g f' g' : Val → Bool), (∀ v, f v = g v) → (∀ v, f' v = g' v) →
-    items.anyKV f f' = items.anyKV g g'
-  | .nil, _, _, _, _, _, _ => rfl
-  | .cons _ .nil, _, _, _, _, _, _ => rfl
-  | .cons k (.cons v r), f, g, f', g', h, h' => by
-    simp only [Vals.anyKV, h k, h' v, vals_anyKV_congr r f g f' g' h h']
-
-/-- below a type without records the walk of a keyword search only looks at string leaves. -/
-theorem walkAny_noRec (term : Bytes) (t : Ty) : noRec t = true → ∀ (skip : Bool) (v : Val),
-    walkAny (searchVisit term) skip t v = walkAny (strLeaf term) skip t v := by
-  apply @Ty.rec
-    (motive_1 := fun t => noRec t = true → ∀ (skip : Bool) (v : Val),
-      walkAny (searchVisit term) skip t v = walkAny (strLeaf term) skip t v)
-    (motive_2 := fun fs => noRecFields fs = true → ∀ (items : Vals),
-      walkFields (searchVisit term) fs items = walkFields (strLeaf term) fs items)
-    (motive_3 := fun ts => noRecs ts = true → ∀ (n : Nat) (v : Val),
-      walkUnion (searchVisit term) ts n v = walkUnion (strLeaf term) ts n v)
-  case prim =>
-    intro id h skip v
-    cases skip <;> simp [walkAny, searchVisit, searchType, recordNames]
-  case enum =>
-    intro n h skip v
-    cases skip <;> simp [walkAny, searchVisit, searchType, recordNames]
-  case record => intro fs _ h; simp [noRec] at h
-  case array =>
-    intro t ih h skip v
-    simp only [noRec] at h
-    have e := fun items => vals_any_congr items (walkAny (searchVisit term) false t) (walkAny (strLeaf term) false t) (ih h false)
-    cases skip <;> cases v <;> simp [walkAny, searchVisit, searchType, recordNames, e]
-  case set =>
-    intro t ih h skip v
-    simp only [noRec] at h
-    have e := fun items => vals_any_congr items (walkAny (searchVisit term) true t) (walkAny (strLeaf term) true t) (ih h true)
-    cases skip <;> cases v <;> simp [walkAny, searchVisit, searchType, recordNames, e]
-  case map =>
-    intro k e ihk ihe h skip v
-    simp only [noRec, Bool.and_eq_true] at h
-    have e' := fun items => vals_anyKV_congr items _ _ _ _ (ihk h.1 true) (ihe h.2 true)
-    cases skip <;> cases v <;> simp [walkAny, searchVisit, searchType, recordNames, e']
-  case union =>
-    intro ts ih h skip v
-    simp only [noRec] at h
-    cases skip <;> simp only [walkAny, searchVisit, searchType, recordNames, Bool.false_or] <;>
-    · congr 1
-      split
-      · split
-        · exact ih h _ _
-        · rfl
-      · rfl
-  case named =>
-    intro n t ih h skip v
-    simp only [noRec] at h
-    cases skip
-    · simp only [walkAny, searchVisit, searchType, recordNames]
-      rw [ih h false v]
-      have := searchType_noRec term t h
-      simp only [searchType] at this
-      rw [this]; rfl
-    · simp only [walkAny]; exact ih h true v
-  case error =>
-    intro t ih h skip v
-    simp only [noRec] at h
-    cases skip <;> simp [walkAny, searchVisit, searchType, recordNames, ih h false v]
-  case nil => intro _ items; cases items <;> rfl
-  case cons =>
-    intro n t r iht ihr h items
-    simp only [noRecFields, Bool.and_eq_true] at h
-    cases items with
-    | nil => rfl
-    | cons x xs => simp only [walkFields, iht h.1 false x, ihr h.2 xs]
-  case nil => intro _ n v; rfl
-  case cons =>
-    intro t r iht ihr h n v
-    simp only [noRecs, Bool.and_eq_true] at h
-    cases n with
-    | zero => simp only [walkUnion]; exact iht h.1 false v
-    | succ m => simp only [walkUnion]; exact ihr h.2 m v
-
-theorem list_any_append_left {α : Type} (p : α → Bool) (a b : List α) (h : a.any p = true) : (a ++ b).any p = true := by
-  simp [List.any_append, h]
-
-theorem list_any_append_right {α : Type} (p : α → Bool) (a b : List α) (h : b.any p = true) : (a ++ b).any p = true := by
-  simp [List.any_append, h]
-
-theorem stringSearch_prefixed (term n m : Bytes) (h : stringSearch term m = true) :
-    stringSearch term (n ++ dot :: m) = true := by
-  unfold stringSearch at *
-  have : n ++ dot :: m = (n ++ [dot]) ++ m := by simp
-  rw [this]
-  exact findBy_append_left foldEq term _ m h
-
-/-- a field type whose own leaf names contain the term is a non-empty record, so its names
-    reappear, prefixed, among the leaf names of the enclosing record. -/
-theorem nestedNames_of_searchType (term : Bytes) : ∀ (t : Ty), searchType term t = true →
-    ∃ ns, nestedNames t = some ns ∧ ns.any (stringSearch term) = true
+theorem matchType_of_searchType (term : Bytes) : ∀ (t : Ty), searchType term t = true → matchType term t = true
   | .named _ t, h => by
-    have := nestedNames_of_searchType term t (by simpa [searchType, recordNames] using h)
-    simpa [nestedNames] using this
+    simp only [matchType]
+    exact matchType_of_searchType term t (by simpa [searchType, recordNames] using h)
   | .record fs, h => by
     simp only [searchType, recordNames] at h
-    refine ⟨fieldNames fs, ?_, h⟩
-    cases fs with
-    | nil => simp [fieldNames] at h
-    | cons n t r => simp [nestedNames, Fields.isEmpty]
+    simp [matchType, h]
   | .prim _, h => by simp [searchType, recordNames] at h
   | .enum _, h => by simp [searchType, recordNames] at h
   | .array _, h => by simp [searchType, recordNames] at h
@@ -450,104 +294,217 @@ theorem nestedNames_of_searchType (term : Bytes) : ∀ (t : Ty), searchType term
   | .union _, h => by simp [searchType, recordNames] at h
   | .error _, h => by simp [searchType, recordNames] at h
 
-theorem fieldNames_cons_of_nested (term n : Bytes) (t : Ty) (r : Fields) (h : searchType term t = true) :
-    (fieldNames (.cons n t r)).any (stringSearch term) = true := by
-  obtain ⟨ns, hn, ha⟩ := nestedNames_of_searchType term t h
-  simp only [fieldNames, hn]
-  apply list_any_append_left
-  rw [List.any_map]
-  rw [List.any_eq_true] at ha ⊢
-  obtain ⟨m, hm, hs⟩ := ha
-  exact ⟨m, hm, stringSearch_prefixed term n m hs⟩
+theorem matchType_under : ∀ (t : Ty), matchType term t = matchType term (under t)
+  | .named _ t => by simp only [matchType, under]; exact matchType_under t
+  | .prim _ | .enum _ | .record _ | .array _ | .set _ | .map _ _ | .union _ | .error _ => rfl
 
 theorem strLeaf_record (term : Bytes) (fs : Fields) (v : Val) : strLeaf term (.record fs) v = false := by
   simp [strLeaf, under]
 
-/-- with records nested only in records, a keyword search that succeeds in the walk succeeds
-    through a leaf name of the *top-level* type or through a string leaf. -/
-theorem walkAny_recOnly (term : Bytes) (t : Ty) : recOnly t = true → ∀ (skip : Bool) (v : Val),
+theorem vals_any_imp : ∀ (items : Vals) (f : Val → Bool) (P : Prop) (g : Val → Bool),
+    (∀ v, f v = true → P ∨ g v = true) → items.any f = true → P ∨ items.any g = true
+  | .nil, _, _, _, _, h => by simp [Vals.any] at h
+  | .cons v r, f, P, g, hfg, h => by
+    simp only [Vals.any, Bool.or_eq_true] at h ⊢
+    rcases h with h | h
+    · rcases hfg v h with hp | hg
+      · exact Or.inl hp
+      · exact Or.inr (Or.inl hg)
+    · rcases vals_any_imp r f P g hfg h with hp | hg
+      · exact Or.inl hp
+      · exact Or.inr (Or.inr hg)
+
+theorem vals_anyKV_imp : ∀ (items : Vals) (f f' : Val → Bool) (P : Prop) (g g' : Val → Bool),
+    (∀ v, f v = true → P ∨ g v = true) → (∀ v, f' v = true → P ∨ g' v = true) →
+    items.anyKV f f' = true → P ∨ items.anyKV g g' = true
+  | .nil, _, _, _, _, _, _, _, h => by simp [Vals.anyKV] at h
+  | .cons _ .nil, _, _, _, _, _, _, _, h => by simp [Vals.anyKV] at h
+  | .cons k (.cons v r), f, f', P, g, g', hf, hf', h => by
+    simp only [Vals.anyKV, Bool.or_eq_true] at h ⊢
+    rcases h with (h | h) | h
+    · rcases hf k h with hp | hg
+      · exact Or.inl hp
+      · exact Or.inr (Or.inl (Or.inl hg))
+    · rcases hf' v h with hp | hg
+      · exact Or.inl hp
+      · exact Or.inr (Or.inl (Or.inr hg))
+    · rcases vals_anyKV_imp r f f' P g g' hf hf' h with hp | hg
+      · exact Or.inl hp
+      · exact Or.inr (Or.inr hg)
+
+/-- a keyword search that succeeds in the walk succeeds through a leaf name of a record type
+    inside the walked type — which `FieldNameFinder.matchType` sees — or through a string leaf. -/
+theorem walkAny_search (term : Bytes) (t : Ty) : ∀ (skip : Bool) (v : Val),
     walkAny (searchVisit term) skip t v = true →
-      searchType term t = true ∨ walkAny (strLeaf term) skip t v = true := by
+      matchType term t = true ∨ walkAny (strLeaf term) skip t v = true := by
   apply @Ty.rec
-    (motive_1 := fun t => recOnly t = true → ∀ (skip : Bool) (v : Val),
+    (motive_1 := fun t => ∀ (skip : Bool) (v : Val),
       walkAny (searchVisit term) skip t v = true →
-        searchType term t = true ∨ walkAny (strLeaf term) skip t v = true)
-    (motive_2 := fun fs => recOnlyF fs = true → ∀ (items : Vals),
+        matchType term t = true ∨ walkAny (strLeaf term) skip t v = true)
+    (motive_2 := fun fs => ∀ (items : Vals),
       walkFields (searchVisit term) fs items = true →
-        (fieldNames fs).any (stringSearch term) = true ∨ walkFields (strLeaf term) fs items = true)
-    (motive_3 := fun _ => True)
+        matchFields term fs = true ∨ walkFields (strLeaf term) fs items = true)
+    (motive_3 := fun ts => ∀ (n : Nat) (v : Val),
+      walkUnion (searchVisit term) ts n v = true →
+        matchTys term ts = true ∨ walkUnion (strLeaf term) ts n v = true)
   case prim =>
-    intro id _ skip v h
-    rw [walkAny_noRec term (.prim id) (by simp [noRec])] at h; exact Or.inr h
+    intro id skip v h
+    cases skip <;> simp only [walkAny, searchVisit, searchType, recordNames, Bool.false_or] at h <;>
+      exact Or.inr (by simp [walkAny, h])
   case enum =>
-    intro n _ skip v h
-    rw [walkAny_noRec term (.enum n) (by simp [noRec])] at h; exact Or.inr h
+    intro n skip v h
+    cases skip <;> simp only [walkAny, searchVisit, searchType, recordNames, Bool.false_or] at h <;>
+      exact Or.inr (by simp [walkAny, h])
+  case record =>
+    intro fs ih skip v h
+    have key : walkAny (searchVisit term) skip (.record fs) v = true →
+        matchType term (.record fs) = true ∨ walkAny (strLeaf term) skip (.record fs) v = true := by
+      intro h
+      cases skip <;> simp only [walkAny, Bool.or_eq_true] at h <;>
+      · rcases h with h | h
+        · simp only [searchVisit, strLeaf_record, Bool.or_false] at h
+          exact Or.inl (matchType_of_searchType term _ h)
+        · split at h
+          · rename_i _ items _
+            rcases ih items h with h' | h'
+            · exact Or.inl (by simp [matchType, h'])
+            · exact Or.inr (by simp [walkAny, h'])
+          · simp at h
+    exact key h
   case array =>
-    intro t _ hr skip v h
-    rw [walkAny_noRec term (.array t) (by simpa [noRec, recOnly] using hr)] at h; exact Or.inr h
+    intro t ih skip v h
+    have key : walkAny (searchVisit term) skip (.array t) v = true →
+        matchType term (.array t) = true ∨ walkAny (strLeaf term) skip (.array t) v = true := by
+      intro h
+      cases skip <;> simp only [walkAny, Bool.or_eq_true] at h <;>
+      · rcases h with h | h
+        · simp only [searchVisit, searchType, recordNames, Bool.false_or] at h
+          exact Or.inr (by simp [walkAny, h])
+        · split at h
+          · rename_i _ items _
+            rcases vals_any_imp items _ (matchType term t = true) _ (ih false) h with h' | h'
+            · exact Or.inl (by simpa [matchType] using h')
+            · exact Or.inr (by simp [walkAny, h'])
+          · simp at h
+    exact key h
   case set =>
-    intro t _ hr skip v h
-    rw [walkAny_noRec term (.set t) (by simpa [noRec, recOnly] using hr)] at h; exact Or.inr h
-  case error =>
-    intro t _ hr skip v h
-    rw [walkAny_noRec term (.error t) (by simpa [noRec, recOnly] using hr)] at h; exact Or.inr h
+    intro t ih skip v h
+    have key : walkAny (searchVisit term) skip (.set t) v = true →
+        matchType term (.set t) = true ∨ walkAny (strLeaf term) skip (.set t) v = true := by
+      intro h
+      cases skip <;> simp only [walkAny, Bool.or_eq_true] at h <;>
+      · rcases h with h | h
+        · simp only [searchVisit, searchType, recordNames, Bool.false_or] at h
+          exact Or.inr (by simp [walkAny, h])
+        · split at h
+          · rename_i _ items _
+            rcases vals_any_imp items _ (matchType term t = true) _ (ih true) h with h' | h'
+            · exact Or.inl (by simpa [matchType] using h')
+            · exact Or.inr (by simp [walkAny, h'])
+          · simp at h
+    exact key h
   case map =>
-    intro k e _ _ hr skip v h
-    rw [walkAny_noRec term (.map k e) (by simpa [noRec, recOnly] using hr)] at h; exact Or.inr h
+    intro k e ihk ihe skip v h
+    have key : walkAny (searchVisit term) skip (.map k e) v = true →
+        matchType term (.map k e) = true ∨ walkAny (strLeaf term) skip (.map k e) v = true := by
+      intro h
+      cases skip <;> simp only [walkAny, Bool.or_eq_true] at h <;>
+      · rcases h with h | h
+        · simp only [searchVisit, searchType, recordNames, Bool.false_or] at h
+          exact Or.inr (by simp [walkAny, h])
+        · split at h
+          · rename_i _ items _
+            have hk : ∀ v, walkAny (searchVisit term) true k v = true →
+                (matchType term k = true ∨ matchType term e = true) ∨ walkAny (strLeaf term) true k v = true := by
+              intro v hv; rcases ihk true v hv with h1 | h1
+              · exact Or.inl (Or.inl h1)
+              · exact Or.inr h1
+            have he : ∀ v, walkAny (searchVisit term) true e v = true →
+                (matchType term k = true ∨ matchType term e = true) ∨ walkAny (strLeaf term) true e v = true := by
+              intro v hv; rcases ihe true v hv with h1 | h1
+              · exact Or.inl (Or.inr h1)
+              · exact Or.inr h1
+            rcases vals_anyKV_imp items _ _ _ _ _ hk he h with h' | h'
+            · exact Or.inl (by simpa [matchType] using h')
+            · exact Or.inr (by simp [walkAny, h'])
+          · simp at h
+    exact key h
   case union =>
-    intro ts _ hr skip v h
-    rw [walkAny_noRec term (.union ts) (by simpa [noRec, recOnly] using hr)] at h; exact Or.inr h
+    intro ts ih skip v h
+    have key : walkAny (searchVisit term) skip (.union ts) v = true →
+        matchType term (.union ts) = true ∨ walkAny (strLeaf term) skip (.union ts) v = true := by
+      intro h
+      cases skip <;> simp only [walkAny, Bool.or_eq_true] at h <;>
+      · rcases h with h | h
+        · simp only [searchVisit, searchType, recordNames, Bool.false_or] at h
+          exact Or.inr (by simp [walkAny, h])
+        · split at h
+          · rename_i _ tag x _
+            split at h
+            · rename_i i hd
+              rcases ih i x h with h' | h'
+              · exact Or.inl (by simpa [matchType] using h')
+              · exact Or.inr (by simp [walkAny, hd, h'])
+            · simp at h
+          · simp at h
+    exact key h
   case named =>
-    intro n t ih hr skip v h
-    simp only [recOnly] at hr
+    intro n t ih skip v h
     cases skip
     · simp only [walkAny, Bool.or_eq_true] at h
       rcases h with h | h
       · simp only [searchVisit, Bool.or_eq_true] at h
         rcases h with h | h
-        · exact Or.inl h
+        · exact Or.inl (matchType_of_searchType term _ h)
         · exact Or.inr (by simp [walkAny, h])
-      · rcases ih hr false v h with h' | h'
-        · exact Or.inl (by simpa [searchType, recordNames] using h')
+      · rcases ih false v h with h' | h'
+        · exact Or.inl (by simpa [matchType] using h')
         · exact Or.inr (by simp [walkAny, h'])
     · simp only [walkAny] at h
-      rcases ih hr true v h with h' | h'
-      · exact Or.inl (by simpa [searchType, recordNames] using h')
+      rcases ih true v h with h' | h'
+      · exact Or.inl (by simpa [matchType] using h')
       · exact Or.inr (by simpa [walkAny] using h')
-  case record =>
-    intro fs ih hr skip v h
-    simp only [recOnly] at hr
-    have key : walkAny (searchVisit term) skip (.record fs) v = true →
-        searchType term (.record fs) = true ∨ walkAny (strLeaf term) skip (.record fs) v = true := by
+  case error =>
+    intro t ih skip v h
+    have key : walkAny (searchVisit term) skip (.error t) v = true →
+        matchType term (.error t) = true ∨ walkAny (strLeaf term) skip (.error t) v = true := by
       intro h
       cases skip <;> simp only [walkAny, Bool.or_eq_true] at h <;>
       · rcases h with h | h
-        · simp only [searchVisit, strLeaf_record, Bool.or_false] at h
-          exact Or.inl h
-        · split at h
-          · rename_i _ items _
-            rcases ih hr items h with h' | h'
-            · exact Or.inl (by simpa [searchType, recordNames] using h')
-            · exact Or.inr (by simp [walkAny, h'])
-          · simp at h
+        · simp only [searchVisit, searchType, recordNames, Bool.false_or] at h
+          exact Or.inr (by simp [walkAny, h])
+        · rcases ih false v h with h' | h'
+          · exact Or.inl (by simpa [matchType] using h')
+          · exact Or.inr (by simp [walkAny, h'])
     exact key h
-  case nil => intro _ items h; simp [walkFields] at h
+  case nil => intro items h; simp [walkFields] at h
   case cons =>
-    intro n t r iht ihr hr items h
-    simp only [recOnlyF, Bool.and_eq_true] at hr
+    intro n t r iht ihr items h
     cases items with
     | nil => simp [walkFields] at h
     | cons x xs =>
       simp only [walkFields, Bool.or_eq_true] at h
       rcases h with h | h
-      · rcases iht hr.1 false x h with h' | h'
-        · exact Or.inl (fieldNames_cons_of_nested term n t r h')
+      · rcases iht false x h with h' | h'
+        · exact Or.inl (by simp [matchFields, h'])
         · exact Or.inr (by simp [walkFields, h'])
-      · rcases ihr hr.2 xs h with h' | h'
-        · exact Or.inl (by simp only [fieldNames]; exact list_any_append_right _ _ _ h')
+      · rcases ihr xs h with h' | h'
+        · exact Or.inl (by simp [matchFields, h'])
         · exact Or.inr (by simp [walkFields, h'])
-  case nil => trivial
-  case cons => intros; trivial
+  case nil => intro n v h; simp [walkUnion] at h
+  case cons =>
+    intro t r iht ihr n v h
+    cases n with
+    | zero =>
+      simp only [walkUnion] at h
+      rcases iht false v h with h' | h'
+      · exact Or.inl (by simp [matchTys, h'])
+      · exact Or.inr (by simpa [walkUnion] using h')
+    | succ m =>
+      simp only [walkUnion] at h
+      rcases ihr m v h with h' | h'
+      · exact Or.inl (by simp [matchTys, h'])
+      · exact Or.inr (by simpa [walkUnion] using h')
 
 theorem strLeaf_findBy (term : Bytes) (t : Ty) (v : Val) (h : strLeaf term t v = true) :
     findBy foldEq term (enc v) = true := by
@@ -558,78 +515,51 @@ theorem strLeaf_findBy (term : Bytes) (t : Ty) (v : Val) (h : strLeaf term t v =
     exact findBy_infix foldEq term (enc_prim_infix b) h.2
   · simp at h
 
-/-- `searchString.Eval` true on a value whose type keeps records out of containers: a leaf name
-    of the top-level type contains the term, or the term occurs (ASCII case folded) in the
-    value's serialisation. -/
-theorem searchString_sound (term : Bytes) (t : Ty) (v : Val) (hr : recOnly t = true)
+/-- `searchString.Eval` true on a value: a leaf name of a record type inside the value's type
+    contains the term, or the term occurs (ASCII case folded) in the value's serialisation. -/
+theorem searchString_sound (term : Bytes) (t : Ty) (v : Val)
     (h : searchStringEval term t v = true) :
-    searchType term t = true ∨ findBy foldEq term (enc v) = true := by
+    matchType term t = true ∨ findBy foldEq term (enc v) = true := by
   simp only [searchStringEval, Bool.or_eq_true] at h
   rcases h with h | h
-  · exact Or.inl h
+  · exact Or.inl (matchType_of_searchType term t h)
   · have hw : walkAny (searchVisit term) false t v = true := h
-    rcases walkAny_recOnly term t hr false v hw with h' | h'
+    rcases walkAny_search term t false v hw with h' | h'
     · exact Or.inl h'
     · obtain ⟨t', v', hv, hi⟩ := walkAny_infix t (strLeaf term) false v h'
       exact Or.inr (findBy_infix foldEq term hi (strLeaf_findBy term t' v' hv))
 
 /-! ## field access -/
 
-theorem recordNames_under : ∀ (t : Ty), recordNames t = recordNames (under t)
-  | .named _ t => by simp only [recordNames, under]; exact recordNames_under t
-  | .prim _ | .enum _ | .record _ | .array _ | .set _ | .map _ _ | .union _ | .error _ => rfl
-
-theorem recOnly_under : ∀ (t : Ty), recOnly t = recOnly (under t)
-  | .named _ t => by simp only [recOnly, under]; exact recOnly_under t
-  | .prim _ | .enum _ | .record _ | .array _ | .set _ | .map _ _ | .union _ | .error _ => rfl
-
-theorem getField_recOnly : ∀ (fs : Fields) (items : Vals) (name : Bytes) (t : Ty) (v : Val),
-    getField fs items name = some (t, v) → recOnlyF fs = true → recOnly t = true
-  | .cons n ft r, .cons x xs, name, t, v, h, hr => by
-    simp only [getField] at h
-    simp only [recOnlyF, Bool.and_eq_true] at hr
-    split at h
-    · simp only [Option.some.injEq, Prod.mk.injEq] at h
-      obtain ⟨rfl, _⟩ := h; exact hr.1
-    · exact getField_recOnly r xs name t v h hr.2
-  | .nil, _, _, _, _, h, _ => by simp [getField] at h
-  | .cons _ _ _, .nil, _, _, _, h, _ => by simp [getField] at h
-
-theorem getField_names (term : Bytes) : ∀ (fs : Fields) (items : Vals) (name : Bytes) (t : Ty) (v : Val),
-    getField fs items name = some (t, v) → searchType term t = true →
-      (fieldNames fs).any (stringSearch term) = true
+theorem getField_match (term : Bytes) : ∀ (fs : Fields) (items : Vals) (name : Bytes) (t : Ty) (v : Val),
+    getField fs items name = some (t, v) → matchType term t = true → matchFields term fs = true
   | .cons n ft r, .cons x xs, name, t, v, h, hs => by
     simp only [getField] at h
     split at h
     · simp only [Option.some.injEq, Prod.mk.injEq] at h
       obtain ⟨rfl, _⟩ := h
-      exact fieldNames_cons_of_nested term n ft r hs
-    · have := getField_names term r xs name t v h hs
-      simp only [fieldNames]; exact list_any_append_right _ _ _ this
+      simp [matchFields, hs]
+    · have := getField_match term r xs name t v h hs
+      simp [matchFields, this]
   | .nil, _, _, _, _, h, _ => by simp [getField] at h
   | .cons _ _ _, .nil, _, _, _, h, _ => by simp [getField] at h
 
-/-- a field reached through records keeps the guard, and a leaf-name match of its type is a
-    leaf-name match of the enclosing type (the enclosing names extend the nested ones). -/
-theorem getPath_guard (term : Bytes) : ∀ (p : List Bytes) (t : Ty) (v : Val) (t' : Ty) (v' : Val),
-    getPath t v p = some (t', v') → recOnly t = true →
-      recOnly t' = true ∧ (searchType term t' = true → searchType term t = true)
-  | [], t, v, t', v', h, hr => by
+/-- a record type inside a field reached through records is inside the enclosing type. -/
+theorem getPath_match (term : Bytes) : ∀ (p : List Bytes) (t : Ty) (v : Val) (t' : Ty) (v' : Val),
+    getPath t v p = some (t', v') → matchType term t' = true → matchType term t = true
+  | [], t, v, t', v', h, hs => by
     simp only [getPath, Option.some.injEq, Prod.mk.injEq] at h
-    obtain ⟨rfl, _⟩ := h; exact ⟨hr, id⟩
-  | name :: rest, t, v, t', v', h, hr => by
+    obtain ⟨rfl, _⟩ := h; exact hs
+  | name :: rest, t, v, t', v', h, hs => by
     simp only [getPath] at h
     split at h
     · rename_i _ _ fs items hu
       split at h
       · rename_i ft fv hgf
-        have hrf : recOnlyF fs = true := by
-          have := recOnly_under t; rw [hu] at this; simpa [recOnly, this] using hr
-        have h1 := getField_recOnly fs items name ft fv hgf hrf
-        obtain ⟨h2, h3⟩ := getPath_guard term rest ft fv t' v' h h1
-        refine ⟨h2, fun hs => ?_⟩
-        have := getField_names term fs items name ft fv hgf (h3 hs)
-        simp only [searchType, recordNames_under t, hu, recordNames]; exact this
+        have h1 := getPath_match term rest ft fv t' v' h hs
+        have h2 := getField_match term fs items name ft fv hgf h1
+        rw [matchType_under t, hu]
+        simp [matchType, h2]
       · simp at h
     · simp at h
 
@@ -645,7 +575,7 @@ theorem encFrame_infix : ∀ (frame : List (Nat × Val)) (m : Nat × Val), m ∈
     · simp only [encFrame]; exact (encFrame_infix r m h).append_left _
 
 theorem fieldNameFind_of_mem (ctx : Ctx) (term : Bytes) : ∀ (frame : List (Nat × Val)) (m : Nat × Val) (t : Ty),
-    m ∈ frame → ctx m.1 = some t → searchType term t = true → fieldNameFind ctx term frame = true
+    m ∈ frame → ctx m.1 = some t → matchType term t = true → fieldNameFind ctx term frame = true
   | [], _, _, h, _, _ => by simp at h
   | (id, v) :: r, m, t, h, hc, hs => by
     simp only [List.mem_cons] at h
@@ -653,10 +583,10 @@ theorem fieldNameFind_of_mem (ctx : Ctx) (term : Bytes) : ∀ (frame : List (Nat
     rcases h with rfl | h
     · left
       simp only [hc]
-      simp only [searchType] at hs
-      split at hs
-      · rename_i ns hn; simp [hn, hs]
-      · simp at hs
+      split
+      · rename_i fs hu
+        rw [matchType_under t, hu] at hs; exact hs
+      · rfl
     · exact Or.inr (fieldNameFind_of_mem ctx term r m t h hc hs)
 
 theorem Tri.and_eq_tt {a b : Tri} (h : a.and b = .tt) : a = .tt ∧ b = .tt := by
